@@ -230,6 +230,7 @@ def gen_case(rng, n_ops, faults=False, crashes=False):
             att = {}
     if me_on and rng.chance(1, 2):
         out.extend(settle(users, ntop))
+    out = with_map_values(rng.fork("maps"), out)
     out = with_attachments(rng.fork("att"), out)
     out = with_sys(rng.fork("sys"), out, faults)
     if me_on:
@@ -258,6 +259,22 @@ def pick_deluser(r2):
     if k < 9:
         return f"deluser {r2.choice(['S1', 'S2', 'S6'])} user={r2.choice(['U1', 'U2', 'U3'])}{hard}"
     return f"deluser S7 user=X{hard}"
+
+
+def with_map_values(r2, out):
+    """`public` and `private` are usually objects: in one {set desc} out of three (group, channel and p2p topics) the value is a map - keys
+    are merged into the map which is there, `null` removes a key, an empty map changes nothing"""
+    vals = ["m:fn=a", "m:fn=b;note=x", "m:note=null", "m:note=y;org=acme", "m:fn=null;note=null", "m:", "m:fn=a;fn=b", "m:org=null;fn=c"]
+    res = []
+    for o in out:
+        w = o.split(" ")
+        if w[0] == "setdesc" and len(w) > 2 and w[2] not in ("me", "fnd", "sys"):
+            for k in range(3, len(w)):
+                if w[k].startswith(("pub=", "priv=")) and not w[k].endswith("=null") and r2.chance(1, 3):
+                    w[k] = w[k].split("=", 1)[0] + "=" + r2.choice(vals)
+            o = " ".join(w)
+        res.append(o)
+    return res
 
 
 def with_attachments(r2, out):
